@@ -604,11 +604,8 @@ Fixpoint h_match_schc_loop (rules : list orule) (s : oref) : hm (option orule) :
   end.
 (* raise RuleIDMatchError(rule_id=rule_id): the name is unbound when there is no rule *)
 Definition h_match_schc_packet (rules : list orule) (s : oref) : hm orule :=
-  match rules with
-  | [] => hlift (Exc UnboundLocalError)
-  | _ => hdo o <- h_match_schc_loop rules s ;;
-         match o with Some r => hret r | None => hlift (Exc RuleIDMatchError) end
-  end.
+  hdo o <- h_match_schc_loop rules s ;;
+  match o with Some r => hret r | None => hlift (Exc RuleIDMatchError) end.     (* also for the empty rule list (rule_id = None before the loop) *)
 
 Lemma pv_match_schc_loop s : forall rules, pure_val (h_match_schc_loop rules s).
 Proof.
@@ -624,7 +621,6 @@ Proof. apply pv_match_schc_loop. Qed.
 Theorem h_match_schc_packet_frame rules s h res h' : h_match_schc_packet rules s h = (res, h') -> extends h h'.
 Proof.
   revert h res h'. change (pure_val (h_match_schc_packet rules s)). unfold h_match_schc_packet.
-  destruct rules. apply pv_lift.
   apply pv_bind. apply pv_match_schc_loop. intros [r|]. apply pv_ret. apply pv_lift.
 Qed.
 
@@ -642,7 +638,7 @@ Proof.
       destruct e0.
       + unfold hret in H. inversion H; subst. inversion H1; subst. now left.
       + right. eapply IH; eauto. }
-  unfold h_match_schc_packet. destruct rules as [|r0 rs]. { unfold hlift. discriminate. }
+  unfold h_match_schc_packet.
   intro H. apply hbind_inv in H. destruct H as [(o & h1 & Hl & H) | [(e & _ & E) | (_ & E)]]; try discriminate.
   destruct o as [r1|]; [ | unfold hlift in H; discriminate ].
   unfold hret in H. inversion H; subst. eapply L; eauto.
@@ -682,8 +678,7 @@ Proof.
   destruct (h_match_schc_loop rules s h) as [[[r|]|e|] h'] eqn:E; try tauto.
   - destruct R as (X & [br|] & Eb & Ro); simpl in Ro; try contradiction. exists br. repeat split; auto; try apply Ro.
     assert (M : h_match_schc_packet rules s h = (Ok r, h')).
-    { unfold h_match_schc_packet. destruct rules. { cbn in E. unfold hret in E. inversion E. }
-      rewrite hbind_eq, E. reflexivity. }
+    { unfold h_match_schc_packet. rewrite hbind_eq, E. reflexivity. }
     eapply h_match_schc_packet_member; eauto.
   - destruct R as (X & [br|] & Eb & Ro); simpl in Ro; try contradiction. exact Eb.
 Qed.
